@@ -26,6 +26,7 @@ func init() {
 		EnumRule:    "one obligation per table (exhaustive over its 256 / N entries) and per opcode / argument-type constant",
 		Assumptions: []string{"scoping, relocation, forward references and multi-table loads (the behavioural core of C11) are not decided; honest size of this claim: small"},
 		Controls: []Control{
+			{Name: "deferred blocks below some children never parsed", File: "kernel/device/acpi/aml/parser.go", Old: "\t\tif p.parseDeferredBlocks(argIndex) != parseResultOk {", New: "\t\tif p.objTree.ObjectAt(argIndex).tableHandle != p.tableHandle {\n\t\t\tcontinue\n\t\t}\n\t\tif p.parseDeferredBlocks(argIndex) != parseResultOk {", Expect: "C11.R3 deferred-all-children"},
 			{Name: "scope block taken from argument 1", File: "kernel/device/acpi/aml/parser.go", Old: "\t\t\t\tfor targetIndex, targetObj = targetObj.firstArgIndex, nil; targetIndex != InvalidIndex; targetIndex = p.objTree.ObjectAt(targetIndex).nextSiblingIndex {\n\t\t\t\t\tif nextObj := p.objTree.ObjectAt(targetIndex); nextObj.opcode == pOpIntScopeBlock {\n\t\t\t\t\t\ttargetObj = nextObj\n\t\t\t\t\t\tbreak\n\t\t\t\t\t}\n\t\t\t\t}\n", New: "\t\t\t\tif targetObj = p.objTree.ArgAt(targetObj, 1); targetObj != nil && targetObj.opcode != pOpIntScopeBlock {\n\t\t\t\t\ttargetObj = nil\n\t\t\t\t}\n", Expect: "C11.R7"},
 			{Name: "field offset restarts at a Connection", File: "kernel/device/acpi/aml/parser.go", Old: "\t\t\tconnectionIndex = connection.index\n", New: "\t\t\tconnectionIndex = connection.index\n\t\t\tnextFieldOffset = 0\n", Expect: "C11.R6"},
 			{Name: "one site reads the method argument count with & 0x3", File: "kernel/device/acpi/aml/parser.go", Old: "\targCount := uint8(p.objTree.ArgAt(target, 1).value.(uint64) & 0x7)", New: "\targCount := uint8(p.objTree.ArgAt(target, 1).value.(uint64) & 0x3)", Expect: "C11.R5"},
